@@ -39,6 +39,7 @@ from .gen import ops_gen, resolve, schema_gen
 PROP = "C08"
 TRIG_F1 = "unpackedAndInherited"
 TRIG_F3 = "mroConflict"
+TRIG_F4 = "siblingUnpacks"
 
 FINGERPRINTS = [
     ("ariadne_codegen/client_generators/fragments.py", "FragmentsGenerator.generate"),
@@ -703,6 +704,57 @@ def mro_conflict(ir: Dict[str, Any]) -> bool:
     return any(m is None for t in class_tables(ir).values() for m in real_mro(t))
 
 
+def _ann_unions(a: Dict[str, Any]) -> List[List[str]]:
+    if a["k"] in ("optional", "list", "disc"):
+        return _ann_unions(a["a"])
+    if a["k"] == "union":
+        return [[x["n"] for x in a["as"] if x["k"] == "cls"]]
+    return []
+
+
+def _siblings_alike(abstract: Set[str], classes: List[Dict[str, Any]], mixins: Set[str]) -> bool:
+    by: Dict[str, Dict[str, Any]] = {}
+    for c in classes:
+        by.setdefault(c["name"], c)
+    frag_bases = {pascal(m) for m in mixins}
+    for c in classes:
+        for f in c["fields"]:
+            for names in _ann_unions(f["ann"]):
+                if not names or names[0] not in by:
+                    continue
+                c0 = by[names[0]]
+                is_abs = any(fl["py"] == "typename__" and fl["ann"]["k"] == "literal" and any(v in abstract for v in fl["ann"]["vs"])
+                             for fl in c0["fields"])
+                if not is_abs:
+                    continue
+                need = [b for b in c0["bases"] if b in frag_bases]
+                for ni in names[1:]:
+                    if ni in by and any(b not in by[ni]["bases"] for b in need):
+                        return False
+    return True
+
+
+def sibling_unpacks(ir: Dict[str, Any], abstract: Set[str]) -> bool:
+    """finding C08-F4: some sub-type class of an interface position lacks a fragment base of the interface class"""
+    if "ops" not in ir:
+        return False
+    for o in ir["ops"]:
+        if not _siblings_alike(abstract, o["classes"], set(o["mixins"])):
+            return True
+    fr = ir.get("fragments")
+    if fr:
+        mix: Set[str] = set()
+        for _, ds in fr["deps"]:
+            mix |= set(ds)
+        if not _siblings_alike(abstract, fr["classes"], mix):
+            return True
+    return False
+
+
+def abstract_types(case: Dict[str, Any]) -> Set[str]:
+    return set(re.findall(r"(?m)^(?:interface|union) (\w+)", case["sdl"]))
+
+
 def norm_model(m: Any) -> Any:
     """drop the free-text message of refusals (only the class of the exception is compared)"""
     if isinstance(m, dict) and "failed" in m and isinstance(m["failed"], dict):
@@ -752,7 +804,12 @@ def corr_packages(ctx: Ctx, st: Optional[LeanStatus], res: Result, cases: List[D
         if model is None:
             continue
         m = norm_model(model[k])
-        m_trig, m_mro = m.pop("trigger", None), m.pop("mroConflict", None)
+        m_trig, m_mro, m_sib = m.pop("trigger", None), m.pop("mroConflict", None), m.pop("siblingUnpacks", None)
+        sib = sibling_unpacks(impl, abstract_types(case))
+        if sib:
+            res.count(f"{label}:in-trigger:{TRIG_F4}")
+        if m_sib is not None and bool(m_sib) != sib:
+            res.mismatches.append(Mismatch("trigger:" + TRIG_F4, {"case": slim(case)}, sib, m_sib))
         if not common.same_json(impl_cmp, m):
             res.mismatches.append(Mismatch("package", {"case": slim(case)}, first_diff(impl_cmp, m), "(see diff)", trigger=None))
         elif len(res.samples) < 3 and impl.get("fragments") and len(impl["fragments"]["classes"]) >= 3:
@@ -1109,11 +1166,13 @@ def classify_failure(case: Dict[str, Any], ir: Dict[str, Any], obs: Dict[str, An
             trig, sig = TRIG_F3, "import-error:inconsistent-mro"
         out.append((sig, trig, msg))
         return out
+    f4 = sibling_unpacks(ir, abstract_types(case)) if ir else False
     for p in obs.get("static_problems", []):
         out.append((p["problem"], None, json.dumps(p)[:300]))
     for c in obs.get("calls", []):
         for p in c.get("problems", []):
-            out.append((p["problem"], None, json.dumps(p)[:400]))
+            trig = TRIG_F4 if (f4 and p["problem"] == "not-instance-of-fragment-class") else None
+            out.append((p["problem"], trig, json.dumps(p)[:400]))
     return out
 
 
@@ -1264,7 +1323,8 @@ def judge(ctx: Ctx, st: Optional[LeanStatus], res: Result, cases: List[Dict[str,
             res.count(f"{label}:dependency-dict-acyclic (checked)")
     # oracle: prefer packages outside the triggers (they can be judged completely), keep some inside
     idx = list(range(len(cases)))
-    clean = [i for i in idx if "ops" in irs[i] and not irs[i].get("trigger") and not mro_conflict(irs[i])]
+    clean = [i for i in idx if "ops" in irs[i] and not irs[i].get("trigger") and not mro_conflict(irs[i])
+             and not sibling_unpacks(irs[i], abstract_types(cases[i]))]
     dirty = [i for i in idx if i not in clean and "observer" not in irs[i] and not cases[i].get("malformed")]
     pick = clean[: max(0, n_oracle - min(len(dirty), n_oracle // 5))] + dirty[: n_oracle // 5]
     oracle(ctx, res, [cases[i] for i in pick], [irs[i] for i in pick], label + ":oracle")
